@@ -187,7 +187,7 @@ def run_harness(cfg, seed, tier, log):
     log.append(("harness build", rc, out[-4000:]))
     if rc != 0:
         return None, "harness does not build against /repo: " + out[-1500:]
-    for f in glob.glob(os.path.join(GEN, "Cases_%s_*" % cfg["id"])) + glob.glob(os.path.join(GEN, cfg["id"] + ".harness.json")):
+    for f in glob.glob(os.path.join(GEN, "Cases_%s_*" % cfg["id"])) + glob.glob(os.path.join(GEN, cfg["id"] + ".harness.json")) + glob.glob(os.path.join(GEN, cfg["id"] + ".current.json")):
         os.remove(f)
     env = dict(GOENV)
     env["VERIF_ROOT"] = ROOT
@@ -352,6 +352,19 @@ def main(argv):
                         known_lines.append(line)
             else:
                 unknown_fail.append(of)
+    if rep is None and herr and ("panic" in herr or "fatal error" in herr or "timed out" in herr):
+        # the harness itself died or hung: the code under test panicked in a goroutine of its own
+        # (not recoverable), dead-locked or span.  The input it was running is the failing input.
+        cur = os.path.join(GEN, pid + ".current.json")
+        if os.path.exists(cur):
+            try:
+                with open(cur) as f:
+                    c = json.load(f)
+                m = re.search(r"(panic: .*|fatal error: .*|harness timed out)", herr)
+                unknown_fail.append({"case": -1, "site": c.get("site"), "input": c.get("input"),
+                                     "what": "%s -- the implementation %s" % (c.get("what"), m.group(1)[:300] if m else "crashed")})
+            except (OSError, ValueError):
+                pass
     base = {"property": pid, "seed": seed, "tier": tier, "repo_head": sh("git -C %s rev-parse HEAD" % REPO)[1].strip()}
     broken = []
     for t in failed_thms:
